@@ -4965,3 +4965,8 @@ M('C18', 'intended-recipient-names-signer', PGP, "                sig._signature
   "                sig._signature.subpackets.addnew('IntendedRecipient', hashed=True, version=4,\n                                                 intended_recipient=self.fingerprint)", 'C18.7')
 M('C18', 'intended-recipient-primary-of-named-subkey', PGP, "                sig._signature.subpackets.addnew('IntendedRecipient', hashed=True, version=4,\n                                                 intended_recipient=intended_recipient.fingerprint)",
   "                sig._signature.subpackets.addnew('IntendedRecipient', hashed=True, version=4,\n                                                 intended_recipient=(intended_recipient.parent or intended_recipient).fingerprint)", 'C18.7')
+_IR = "                sig._signature.subpackets.addnew('IntendedRecipient', hashed=True, version=4,\n                                                 intended_recipient=intended_recipient.fingerprint)\n            elif isinstance(intended_recipient, Fingerprint):\n                # FIXME: what if it's not a v4 fingerprint?\n                sig._signature.subpackets.addnew('IntendedRecipient', hashed=True, version=4,\n                                                 intended_recipient=intended_recipient)\n            else:\n                warnings.warn(\"Intended Recipient is not a PGPKey, ignoring\")\n"
+T('C18', 'twin-intended-recipient-one-shared-call', PGP, _IR,
+  "                recipient_fpr = intended_recipient.fingerprint\n            elif isinstance(intended_recipient, Fingerprint):\n                recipient_fpr = intended_recipient\n            else:\n                warnings.warn(\"Intended Recipient is not a PGPKey, ignoring\")\n                continue\n\n            sig._signature.subpackets.addnew('IntendedRecipient', hashed=True, version=4,\n                                             intended_recipient=recipient_fpr)\n")
+M('C18', 'intended-recipient-shared-call-one-arm-derived', PGP, _IR,
+  "                recipient_fpr = (intended_recipient.parent or intended_recipient).fingerprint\n            elif isinstance(intended_recipient, Fingerprint):\n                recipient_fpr = intended_recipient\n            else:\n                warnings.warn(\"Intended Recipient is not a PGPKey, ignoring\")\n                continue\n\n            sig._signature.subpackets.addnew('IntendedRecipient', hashed=True, version=4,\n                                             intended_recipient=recipient_fpr)\n", 'C18.7')
